@@ -140,7 +140,8 @@ class Check(object):
               "coverage": cov, "assumptions": self.assumptions,
               "wall_s": round(time.time() - self.t0, 2), "violations": len(self.violations)}
         # runs against a scratch copy of the repository (mutation campaigns) must not overwrite the evidence of /repo
-        d = os.environ.get("EON_VERIF_EVIDENCE_DIR") or os.path.join(VERIF, "evidence")
+        # extra-coverage checks (ids X..) are not listed properties: their evidence is kept apart
+        d = os.environ.get("EON_VERIF_EVIDENCE_DIR") or os.path.join(VERIF, "evidence_extra" if self.pid.startswith("X") else "evidence")
         os.makedirs(d, exist_ok=True)
         with open(os.path.join(d, "%s.json" % self.pid), "w") as fh:
             json.dump(ev, fh, indent=1, default=_jd)
